@@ -351,6 +351,38 @@ MUT_METHODS = {"append", "extend", "pop", "insert", "remove", "clear", "update",
 R4_MODULES = ("frontend.api", "frontend.util", "frontend.ops", "adapter.einx_from_namedtensor", "namedtensor.solve", "adapter.namedtensor_calltensorfactory", "frontend.impl._util")
 
 
+def _fresh_accumulator(p, f, pname):
+    """parameter `pname` of the private helper f is, at every call site in the project, a local of the caller that is
+    bound (only) to a new empty container there"""
+    if not f.name.startswith("_") or f.name.startswith("__") or pname not in f.params:
+        return False
+    idx = f.params.index(pname)
+    sites = 0
+    for g in p.funcs.values():
+        if not isinstance(g.node, (ast.FunctionDef, ast.AsyncFunctionDef)):
+            continue
+        for c in ast.walk(g.node):
+            if not isinstance(c, ast.Call) or p.func_containing(c) is not g:
+                continue
+            off = 0
+            if f.cls is not None and isinstance(c.func, ast.Attribute) and c.func.attr == f.name and isinstance(c.func.value, ast.Name) and g.cls is not None and g.params and c.func.value.id == g.params[0] and p.lookup_method(g.cls, f.name) is f:
+                off = 1
+            elif f.cls is None and resolve_callee(p, c, g.module) == ("func", f):
+                off = 0
+            else:
+                continue
+            a = c.args[idx - off] if 0 <= idx - off < len(c.args) else next((k.value for k in c.keywords if k.arg == pname), None)
+            if not isinstance(a, ast.Name) or a.id in g.params:
+                return False
+            top = g
+            binds = [x.value for x in walk_no_nested(top.node) if isinstance(x, ast.Assign) and any(isinstance(t, ast.Name) and t.id == a.id for t in x.targets)]
+            fresh = lambda v: (isinstance(v, (ast.List, ast.Dict, ast.Set)) and not (getattr(v, "elts", None) or getattr(v, "keys", None))) or (isinstance(v, ast.Call) and isinstance(v.func, ast.Name) and v.func.id in ("list", "dict", "set", "defaultdict", "OrderedDict") and not v.args)  # noqa: E731
+            if not binds or not all(fresh(v) for v in binds):
+                return False
+            sites += 1
+    return sites > 0
+
+
 def r4(p, rep):
     rep.rule("C09.R4", "python-level code between the public entry points and the tracer does not mutate caller-owned objects", "T-TAINT (USERDATA -> mutation sinks)", floor=20)
     for f in p.funcs.values():
@@ -391,6 +423,11 @@ def r4(p, rep):
             if root:
                 bad.append((n, root, what))
         key = f"{f.qualname}:params"
+        if bad:
+            acc = {root for _, root, _ in bad if _fresh_accumulator(p, f, root)}
+            for n, root, what in [b for b in bad if b[1] in acc]:
+                rep.ok("C09.R4", f"{f.qualname}:accumulator({root})", f"{f.module.rel}:{n.lineno}", f"`{what}` fills `{root}`, which at every call site of this private helper is a container the caller itself just created (not a caller-owned object)")
+            bad = [b for b in bad if b[1] not in acc]
         if bad:
             for n, root, what in bad:
                 rep.violation("C09.R4", f"{f.qualname}:mutates({what})", f"{f.module.rel}:{n.lineno}", f"parameter `{root}` (caller-owned) is modified in place by `{what}`")
